@@ -29,7 +29,12 @@ Leaves == <<
   <<For("Q", Bin("/", I(1), I(0)), I(2), NoExpr, "auto", <<Nop>>)>>,
   <<If(Bin(">", Bin("/", I(1), I(0)), I(0)), <<Nop>>, <<>>)>>,
   <<For("Q", I(1), I(2), I(0), "auto", <<Nop>>)>>,
-  <<Let("X", UCall("FDIV", <<I(0)>>))>>
+  <<Let("X", UCall("FDIV", <<I(0)>>))>>,
+  \* the condition fails on the evaluation right after a `continue`
+  <<Let("KK", I(0)), While(Bin(">", Bin("/", I(10), Bin("-", I(2), V("KK"))), I(0)), <<Let("KK", Bin("+", V("KK"), I(1))), Continue>>)>>,
+  \* a handler that itself raises / fails
+  <<Begin(<<RaiseS("E1")>>, <<When("E1", <<P("hr"), RaiseS("E2")>>)>>)>>,
+  <<Begin(<<RaiseS("E1")>>, <<When("OTHERS", <<P("hd"), Let("X", Bin("/", I(1), I(0)))>>)>>)>>
 >>
 NWrap == Len(HandlerSets) + 5
 
